@@ -9,6 +9,7 @@ on all method families and both directions, with crossings in step interiors and
 (exact binary grids with y' = const). Only non-terminal events are generated here (C09 owns terminal ones).
 """
 import numpy as np
+from hypothesis import strategies as st
 
 from pbt import evrun
 from pbt import methods as M
@@ -25,7 +26,34 @@ ASSUMPTIONS = ["sign changes are evaluated on the recorded samples themselves (a
 
 def parts(tier):
     q = tier == "quick"
-    return [Part("missed", strategy=evrun.event_case("missed", terminal_mode="none"), examples=1000 if q else 20000, timeout=300)]
+    return [Part("missed", strategy=evrun.event_case("missed", terminal_mode="none"), examples=1000 if q else 20000, timeout=300),
+            Part("near_tangent", strategy=_near_tangent(), examples=300 if q else 6000, timeout=300)]
+
+
+@st.composite
+def _near_tangent(draw):
+    """g = s (t - r1)(t - r2) with the two roots a hair apart (2 delta) on either side of a step boundary, far from t = 0:
+    two strict sign changes in two consecutive steps - both must be reported, however close they are in time"""
+    method = draw(st.sampled_from(["RK4Solver", "EulerSolver", "MidpointSolver", "RK5Solver", "HeunsSolver", "SymplecticEulerSolver"]))
+    fam = M.family(M.get(method))
+    t0 = draw(st.sampled_from([2.0 ** 20, -2.0 ** 20, 1024.0, -4096.0, 64.0, 0.0, 2.0 ** 24]))
+    h = draw(st.sampled_from([1 / 16.0, 1 / 4.0, 1.0]))
+    N = draw(st.integers(3, 8))
+    sgn = draw(st.sampled_from([1.0, 1.0, -1.0]))
+    tf = t0 + sgn * N * h
+    evs = []
+    for _ in range(draw(st.integers(1, 2))):
+        k = draw(st.integers(1, N - 1))
+        tk = t0 + sgn * k * h
+        ulp = float(np.spacing(max(abs(t0), abs(tf), 1.0)))
+        # resolvable (>= 8 ulp of t) and farther apart than the window eps^0.7 = 2.9e-11 inside which the library treats two
+        # records of one function as one (the root on a step boundary, found from both sides)
+        delta = max(draw(st.sampled_from([8.0, 64.0, 1024.0, 2.0 ** 14, 2.0 ** 17])) * ulp, draw(st.sampled_from([1e-10, 4e-10, 1e-8])))
+        evs.append(dict(h="timeprod", s=draw(st.sampled_from([1.0, 1.0, 1e4, 1e-3, -1.0])), direction=draw(st.sampled_from([0, 0, 0, 1, -1])), terminal=False,
+                        r1=tk - delta, r2=tk + delta, c=0.0))
+    prob = dict(kind="rot", y0=[1.0, 0.0], w=0.5) if fam == "splitting" else dict(kind="const", y0=[0.25, -1.0], v=[1.0, 0.5])
+    return dict(part="near_tangent", method=method, dtype="float64", prob=prob, t0=t0, tf=tf, dt=h * draw(st.sampled_from([1.0, -1.0])),
+                rtol=1e-6, atol=1e-6, dense=draw(st.booleans()), events=evs)
 
 
 def check(case):
